@@ -350,9 +350,9 @@ type CiphertextCPA struct {
 //   - U = rP \in G1,
 //   - V = M XOR H2(Gid)) = M XOR H2(GidT)  \in {0,1}^n
 func EncryptCPAonG1(s pairing.Suite, basePoint, public kyber.Point, ID, msg []byte) (*CiphertextCPA, error) {
-	if len(msg)>>16 > 0 {
-		// we're using blake2 as XOF which only outputs 2^16-1 length
-		return nil, errors.New("ciphertext too long")
+	if len(msg) > s.Hash().Size() {
+		// the pad is one hash output: longer messages would stay in the clear
+		return nil, errors.New("plaintext too long for the hash function provided")
 	}
 	hashable, ok := s.G2().Point().(kyber.HashablePoint)
 	if !ok {
